@@ -1342,10 +1342,9 @@ class Stage:
     """
     @property
     def _is_transcribed(self):
-        if self._is_original:
-            return self.master._var_is_transcribed 
-        else:
-            return self._original._is_transcribed
+        # the augmented copy keeps its own flag: once transcribed it stays the transcription of the
+        # declarations it was copied from; an edit of the original leads to a new copy
+        return self.master._var_is_transcribed
 
     @property
     def is_transcribed(self):
